@@ -3,8 +3,8 @@ import Nv.Model.C19
 import Nv.Gen.C19
 /-!
 oracle_c19 — line protocol (the configuration is the one regenerated from the source, `Nv.Gen.C19.cfg`):
-  `new mock=<0|1> len=<n> maxc=<int> maxv=<int> ttlx=<0|1> minb=<0|1> winr=<0|1> smsfail=<0|1>` → `new`
-  `send <area> <phone>` → `ok h<k>` | `smsfail h<k>` | `err:tooFreq` | `err:countLimit`
+  `new cap=<n> mock=<0|1> len=<int> maxc=<int> maxv=<int> ttlx=<0|1> minb=<0|1> winr=<0|1> smsfail=<0|1>` → `new`
+  `send <area> <phone>` → `ok h<k>` | `smsfail h<k>` | `err:tooFreq` | `err:countLimit` | `panic`
   `verify <area> <phone> <cur|wrong|c<k>|lit:<text>> <hcur|h<k>|hx|h->` →
         `ok` | `err:notExist` | `err:retryLimit` | `err:notMatch` | `err:hashNotMatch` | `err:timeout`
   `nonce <base> <len> <v0,v1,…|->` → `out=<string>` | `panic`
@@ -22,7 +22,7 @@ structure OState where
   cur : List ((Str × Str) × (Code × Nat))  -- code and hash of the last accepted send per (area, phone) pair
   sends : List (Nat × Code)          -- code of accepted send k
 
-def OState.init : OState := ⟨false, ⟨false, 0, 0, 0, false, false, false, false⟩, State.init, [], []⟩
+def OState.init : OState := ⟨false, ⟨0, false, 0, 0, 0, false, false, false, false⟩, State.init, [], []⟩
 
 def tok (s : String) : Str := if s == "_" then [] else s.toList
 
@@ -43,16 +43,17 @@ def boolOf (l : Str) : Option Bool := if l == ['1'] then some true else if l == 
 
 def parseNew (ws : List String) : Option Params :=
   match ws with
-  | [a, b, c, d, e, f, g, h] => do
+  | [z, a, b, c, d, e, f, g, h] => do
+    let cap ← (field "cap" z).bind natOf
     let mock ← (field "mock" a).bind boolOf
-    let len ← (field "len" b).bind natOf
+    let len ← (field "len" b).bind intOf
     let maxc ← (field "maxc" c).bind intOf
     let maxv ← (field "maxv" d).bind intOf
     let ttlx ← (field "ttlx" e).bind boolOf
     let minb ← (field "minb" f).bind boolOf
     let winr ← (field "winr" g).bind boolOf
     let sf ← (field "smsfail" h).bind boolOf
-    pure ⟨mock, len, maxc, maxv, ttlx, minb, winr, sf⟩
+    pure ⟨cap, mock, len, maxc, maxv, ttlx, minb, winr, sf⟩
   | _ => none
 
 def lookupPair (k : Str × Str) : List ((Str × Str) × (Code × Nat)) → Option (Code × Nat)
@@ -89,6 +90,7 @@ def parseHash (o : OState) (pair : Str × Str) (w : String) : Option Nat :=
 
 def showSend : SendResult → String
   | .ok h => s!"ok h{h}" | .smsFail h => s!"smsfail h{h}" | .tooFreq => "err:tooFreq" | .countLimit => "err:countLimit"
+  | .panic => "panic"
 
 def showVerify : VerifyResult → String
   | .ok => "ok" | .notExist => "err:notExist" | .retryLimit => "err:retryLimit" | .notMatch => "err:notMatch"
